@@ -189,6 +189,20 @@ func isInstrAfterPhis(v ssa.Value) bool {
 func (fr *Frame) loopEnv(lc *loopCtx, st *State, phiVal func(*ssa.Phi) Val) *Env {
 	env := fr.baseEnv(st)
 	h := lc.header
+	// A parameter that is reassigned inside the loop has a header phi carrying its source name: in the invariants
+	// of this loop the name denotes the CURRENT value (like every other loop variable), and old(name) the value at
+	// function entry. (Before, the parameter map shadowed the phi and the current value could not be named at all.)
+	for _, p := range headerPhis(h) {
+		for _, prm := range fr.fn.Params {
+			if prm.Name() == p.Comment && types.Identical(prm.Type(), p.Type()) {
+				if env.oldNames == nil {
+					env.oldNames = map[string]TV{}
+				}
+				env.oldNames[p.Comment] = env.names[p.Comment]
+				env.names[p.Comment] = TV{phiVal(p), p.Type()}
+			}
+		}
+	}
 	env.lookup = func(name string) (TV, bool) {
 		for _, p := range headerPhis(h) {
 			if p.Comment == name {
